@@ -70,7 +70,7 @@ VALUES: dict[str, list] = {
     'int': [('0', 0), ('1', 1), ('neg1', -1), ('min', -2 ** 31), ('max', 2 ** 31 - 1)],
     'float': [('0', 0.0), ('1p5', 1.5), ('neg0', -0.0), ('neg', -2.25), ('f32max', F32MAX),
               ('f32minnorm', f32(1.1754943508222875e-38)), ('denorm', f32(1.401298464324817e-45)),
-              ('tiny', f32(1e-7)), ('edge', f32(1.0000005)), ('big', 16777216.0), ('frac', f32(0.1))],
+              ('tiny', f32(1e-7)), ('edge', f32(1.0000005)), ('big', 16777216.0), ('frac', f32(0.1)), ('micro', f32(1e-6))],
     'bool': [('t', True), ('f', False)],
     'string': [('ascii', 'abc'), ('nonascii', 'é'), ('empty', ''), ('quote', 'say "hi"'), ('bslash', 'a\\b'),
                ('nl', 'l1\nl2'), ('crlf', 'a\r\nb'), ('tab', '\tx'), ('astral', '\U0001F600x'), ('squote', "it's"),
